@@ -7,4 +7,3 @@ import LyModel.Props.C10
 #print axioms LyModel.Props.C10.stmt_tree_roundtrip
 #print axioms LyModel.Props.C10.stmt_tree_roundtrip_input_fuel
 #print axioms LyModel.Props.C10.stmt_roundtrip
-#print axioms LyModel.Props.C10.stmt_tree_roundtrip_vacuous_for_keywordlike_prefix
